@@ -71,7 +71,7 @@ def register4(R, P):
     P["C18"] = {"targets": list(P["_refmgr"]), "shards": {"ReferenceManager.change_ref": 6, "ReferenceManager.del_ref": 3},
                 "trusted_base": ["model/space layer reference operations (SpaceManager.new_ref/del_ref/change_ref, ModelImpl.new_ref/del_ref/change_ref): frame + effect on own_refs, assumed",
                                  "IOManager.get_spec_from_value / del_spec over the ghost set `specs`", "id() injective on live objects"],
-                "assumptions": ["IOManager internals (BiDict, SharedIO tables), update_value, new_pandas undo paths and space deletion (del_space_refs) are covered by the bounded driver only"]}
+                "assumptions": ["IOManager internals (BiDict, SharedIO tables), update_value and new_pandas undo paths are covered by the bounded driver only"]}
     P["C12"] = {"targets": list(P["_names"]) + ["CustomChainMap.__getitem__", "CustomChainMap.__contains__", "LazyEval.notify"], "shards": {},
                 "trusted_base": ["SharedSpaceOperations._get_subs (networkx descendants / topological order) as the uninterpreted set subs(); namespace property modelled as a field equal to _namespace.fresh"],
                 "assumptions": ["add_bases conflict check, new_cells/rename guards, LazyEval refresh and dir() are covered by the bounded driver only"]}
